@@ -24,7 +24,6 @@ import (
 
 const (
 	zzPkgGroup = "pkg.crossplane.io"
-	zzPkgName  = "provider-x"
 	zzPkgUID   = "uid-provider-x"
 )
 
@@ -155,6 +154,10 @@ func zzAtMostOneActive(s *kube.Store) func() {
 	}
 }
 
+// zzPkgName is the package's name. HarnessC14History also runs with a name
+// that is not a DNS label (object names are DNS subdomains).
+var zzPkgName = "provider-x"
+
 // HarnessC14Reconcile: one fault-free package reconcile from an arbitrary
 // valid pre-state (0..N existing revisions with symbolic revision numbers
 // and activity, any history limit, either activation policy, the source
@@ -163,6 +166,7 @@ func zzAtMostOneActive(s *kube.Store) func() {
 //gosym:harness
 //gosym:cover gc-delete current-existed current-new rollback-to-older
 func HarnessC14Reconcile() {
+	zzPkgName = "provider-x"
 	nRev := zz.Bound(3, 3)
 	s, p, pre := zzSetup(nRev)
 
@@ -271,6 +275,7 @@ func HarnessC14Reconcile() {
 //gosym:harness
 //gosym:cover fault-hit conflict-hit retried-ok
 func HarnessC14Faults() {
+	zzPkgName = "provider-x"
 	nRev := zz.Bound(2, 3)
 	s, p, pre := zzSetup(nRev)
 	cur := zzNewRev
